@@ -37,6 +37,7 @@ type Case struct {
 	Root     *x.Node     `json:"root"`
 	Template bool        `json:"template,omitempty"` // root is a template; even printings use standalone template form
 	Fault    string      `json:"fault,omitempty"`    // kind of the injected ill-typed variant ("" = none); informational
+	Probe    string      `json:"probe,omitempty"`    // deterministic-shape generator class ("early-check": see earlycheck_test.go); informational
 	Styles   []x.Style   `json:"styles"`
 }
 
@@ -75,7 +76,12 @@ func gen(t *rapid.T, template bool) Case {
 	} else {
 		c.Root = g.ExprOf(g.RootType(), depth)
 	}
-	if rapid.IntRange(0, 9).Draw(t, "fault") >= 6 {
+	// low-weight class (about 0.4%) that meets the known early-condition-check finding, so that
+	// its classification is exercised by every run
+	if !template && rapid.IntRange(0, 127).Draw(t, "probe") == 100 {
+		c.Root = g.EarlyCheckProbe()
+		c.Probe = "early-check"
+	} else if rapid.IntRange(0, 9).Draw(t, "fault") >= 6 {
 		c.Root, c.Fault = g.InjectFault(c.Root)
 		if c.Template && c.Root.K != x.KTmpl {
 			// the root of sub-check b stays a template
@@ -101,6 +107,8 @@ type outcome struct {
 	val    cty.Value
 	hasErr bool
 	firstE string
+	expr   hclsyntax.Expression
+	diags  hcl.Diagnostics
 }
 
 func diagSummary(d hcl.Diagnostics) string {
@@ -112,12 +120,12 @@ func diagSummary(d hcl.Diagnostics) string {
 	return ""
 }
 
-func buildCtx(c Case, st x.Style) (*hcl.EvalContext, *core.Violation) {
+func buildCtx(c Case, st x.Style) (*hcl.EvalContext, map[string]*ufn, *core.Violation) {
 	vars := map[string]cty.Value{}
 	for _, v := range c.Vars {
 		cv, err := v.V.Cty()
 		if err != nil {
-			return nil, core.V("harness|bad-env-value", "%v", err)
+			return nil, nil, core.V("harness|bad-env-value", "%v", err)
 		}
 		vars[v.Name] = cv
 	}
@@ -125,21 +133,39 @@ func buildCtx(c Case, st x.Style) (*hcl.EvalContext, *core.Violation) {
 		"try": tryfunc.TryFunc,
 		"can": tryfunc.CanFunc,
 	}}
+	ufs := map[string]*ufn{}
 	if len(c.Funcs) > 0 {
 		src := x.PrintFuncs(c.Funcs, st)
 		f, diags := hclsyntax.ParseConfig([]byte(src), "funcs.hcl", hcl.InitialPos)
 		if diags.HasErrors() {
-			return nil, core.V("parse|function-block|"+diagSummary(diags), "function definitions do not parse: %s\n%s", diags.Error(), src)
+			return nil, nil, core.V("parse|function-block|"+diagSummary(diags), "function definitions do not parse: %s\n%s", diags.Error(), src)
 		}
 		funcs, _, diags := userfunc.DecodeUserFunctions(f.Body, "function", func() *hcl.EvalContext { return ctx })
 		if diags.HasErrors() {
-			return nil, core.V("userfunc|decode|"+diagSummary(diags), "DecodeUserFunctions: %s\n%s", diags.Error(), src)
+			return nil, nil, core.V("userfunc|decode|"+diagSummary(diags), "DecodeUserFunctions: %s\n%s", diags.Error(), src)
 		}
 		for k, fn := range funcs {
 			ctx.Functions[k] = fn
 		}
+		// parsed bodies, for the early-check classification (earlycheck_test.go)
+		if body, ok := f.Body.(*hclsyntax.Body); ok {
+			for _, blk := range body.Blocks {
+				if blk.Type != "function" || len(blk.Labels) != 1 || blk.Body == nil {
+					continue
+				}
+				attr, ok := blk.Body.Attributes["result"]
+				if !ok {
+					continue
+				}
+				for i := range c.Funcs {
+					if c.Funcs[i].Name == blk.Labels[0] {
+						ufs[blk.Labels[0]] = &ufn{params: c.Funcs[i].Params, varParam: c.Funcs[i].VarParam, body: attr.Expr}
+					}
+				}
+			}
+		}
 	}
-	return ctx, nil
+	return ctx, ufs, nil
 }
 
 func run(c Case, i int, ctx *hcl.EvalContext) (outcome, *core.Violation) {
@@ -171,6 +197,8 @@ func run(c Case, i int, ctx *hcl.EvalContext) (outcome, *core.Violation) {
 	o.val = val
 	o.hasErr = vd.HasErrors()
 	o.firstE = diagSummary(vd)
+	o.expr = expr
+	o.diags = vd
 	return o, nil
 }
 
@@ -203,7 +231,7 @@ func check(c Case) *core.Violation {
 		last.ref = "value"
 	}
 	// the function definitions are spelled with the last (random) style
-	ctx, v := buildCtx(c, c.Styles[len(c.Styles)-1])
+	ctx, ufs, v := buildCtx(c, c.Styles[len(c.Styles)-1])
 	if v != nil {
 		return v
 	}
@@ -245,6 +273,9 @@ func check(c Case) *core.Violation {
 		if o.hasErr {
 			if ref.ErrOK {
 				return nil
+			}
+			if earlyCheckExplains(o.expr, ctx, ufs, o.diags) {
+				return core.V(earlyCheckSig, "the reference evaluates this tree to %s and the `if` clause of the for-expression is error-free for every actual element, but ForExpr.Value's dry run of the clause with DynamicVal placeholders for the loop variables reports: %s\nsource: %s", show(ref.V), o.firstE, o.src)
 			}
 			return core.V("diff|unexpected-error|"+o.firstE, "the language defines the value %s but evaluation reported: %s\nsource: %s", show(ref.V), o.firstE, o.src)
 		}
@@ -384,6 +415,9 @@ func classify(c Case) core.Class {
 	for k := range kinds {
 		cl.Labels = append(cl.Labels, "node:"+k)
 	}
+	if c.Probe != "" {
+		cl.Labels = append(cl.Labels, "class:probe-"+c.Probe)
+	}
 	cl.Labels = append(cl.Labels, "fault:"+fault, "depth:"+db, "nvars:"+fmt.Sprint(len(c.Vars)), "nfuncs:"+fmt.Sprint(len(c.Funcs)))
 	if mixed {
 		cl.Labels = append(cl.Labels, "mixed-precedence")
@@ -423,7 +457,7 @@ func faultClass(k string) string {
 	return k
 }
 
-const ruleCommon = "environment of 0-6 variables (numbers incl. dyadic fractions and 2^40, strings incl. numeric/boolean-looking and non-ASCII, bools, nulls, tuples, lists, objects, maps), 0-3 functions defined through ext/userfunc blocks (may call earlier ones, variadic, closures over the variables) plus tryfunc try/can; a typed tree of depth<=6 over literals, variables, unary/binary arithmetic, comparison, equality across types, logic, conditional (same-typed, null, string-unification branches), tuple/object constructors (bare/quoted/computed keys), index (literal, computed, string key), attribute, attribute-only and full splat (incl. traversal inside the splat vs applied to its result, splat of null / single value / list), for-expressions (tuple and object form, key+value variables, if, grouping), calls (incl. argument expansion), templates (literal, ${}, %{if/else}, %{for}, ~ strip markers, passthrough of a single interpolation); with probability 0.35 one node is replaced by an ill-typed variant (16 kinds: ill-typed operator, undefined variable/function, missing attribute, index out of range / negative / fractional / into a primitive, duplicate key without grouping, null or non-primitive in a template, null operand, wrong arity, for over a primitive, non-boolean condition, bad expansion). Every tree is printed 2-3 times: canonical minimal spelling and random spellings (redundant parentheses, spacing, tabs, newlines and # // /* */ comments where insignificant, ':' vs '=' and newline vs comma in object constructors, trailing commas, x.0 vs x[0], .* vs [*], number spellings 1e3 / 2.50 / 25e-1, \\xHH byte escapes (the fork's own escape), quoted vs heredoc vs flush heredoc with extra indentation). Oracle: all printings RawEqual and same error-ness; reference evaluator (exact rationals) says value => no error diagnostic and same value+type; says error => error diagnostic; trees leaving the documented semantics (README.md) are checked metamorphically only. Non-trivial: an operator with an unparenthesised operand of another precedence level in the minimal spelling, or a for-expression / splat / template directive; distinct = (feature set: operators, conditional, access/splat, for, call, template | depth bucket | fault kind | set of printing modes)"
+const ruleCommon = "environment of 0-6 variables (numbers incl. dyadic fractions and 2^40, strings incl. numeric/boolean-looking and non-ASCII, bools, nulls, tuples, lists, objects, maps), 0-3 functions defined through ext/userfunc blocks (may call earlier ones, variadic, closures over the variables) plus tryfunc try/can; a typed tree of depth<=6 over literals, variables, unary/binary arithmetic, comparison, equality across types, logic, conditional (same-typed, null, string-unification branches), tuple/object constructors (bare/quoted/computed keys), index (literal, computed, string key), attribute, attribute-only and full splat (incl. traversal inside the splat vs applied to its result, splat of null / single value / list), for-expressions (tuple and object form, key+value variables, if, grouping), calls (incl. argument expansion), templates (literal, ${}, %{if/else}, %{for}, ~ strip markers, passthrough of a single interpolation); with probability 0.35 one node is replaced by an ill-typed variant (16 kinds: ill-typed operator, undefined variable/function, missing attribute, index out of range / negative / fractional / into a primitive, duplicate key without grouping, null or non-primitive in a template, null operand, wrong arity, for over a primitive, non-boolean condition, bad expansion); about 0.4% of the expression roots are a fixed-shape probe (for-expression whose if clause holds a conditional that unifies only for the real key type) that meets the known early-condition-check finding. Every tree is printed 2-3 times: canonical minimal spelling and random spellings (redundant parentheses, spacing, tabs, newlines and # // /* */ comments where insignificant, ':' vs '=' and newline vs comma in object constructors, trailing commas, x.0 vs x[0], .* vs [*], number spellings 1e3 / 2.50 / 25e-1, \\xHH byte escapes (the fork's own escape), quoted vs heredoc vs flush heredoc with extra indentation). Oracle: all printings RawEqual and same error-ness; reference evaluator (exact rationals) says value => no error diagnostic and same value+type; says error => error diagnostic; trees leaving the documented semantics (README.md) are checked metamorphically only. Non-trivial: an operator with an unparenthesised operand of another precedence level in the minimal spelling, or a for-expression / splat / template directive; distinct = (feature set: operators, conditional, access/splat, for, call, template | depth bucket | fault kind | set of printing modes)"
 
 var assumptions = []string{
 	"number literals are integers or dyadic fractions so that cty's 512-bit floats are exact; results needing more than 300 bits, non-dyadic quotients, division by zero, modulo outside naturals are not compared with the reference",
